@@ -75,6 +75,9 @@ CHECKS = {
  "C22": ("exploration", "run-time monitor: every answer tuple with a shallow reference derivation must have a tree whose root is a real proof step",
          "held on every answer tuple of the run apart from the listed known finding (tuples only derivable through computed-column rules): .why succeeds, returns a tree for the tuple, root is neither the truncated nor the derived-fact fallback",
          "trusted: reference derivation depths (all far below the limit of 50)", "3/C22"),
+ "C23": ("exploration", "run-time monitor: every blocker of every why-not reply re-evaluated against the reference model, over all candidate tuples of the value domain",
+         "held on every candidate tuple of the run apart from the listed known findings (derived data invisible to why-not, no backtracking, computed columns): underivable tuples get a true blocker for every clause, derivable tuples are never fully blocked",
+         "trusted: reference model; blockers read from the structured WhyNot nodes of the reply", "3/C23"),
 }
 NOT_YET = "monitor not built yet in this round (design in DESIGN.md section 3); not claimed until a check exists"
 
